@@ -40,6 +40,9 @@ def FragF : List (FieldDef × Ty) → Prop
   | (_, t) :: fs => Frag t ∧ FragF fs
 end
 
+/-- the default dialect: nothing passes through unconverted, every collection is copied -/
+def Cx.plain (cx : Cx) : Prop := cx.passLeaves = [] ∧ cx.noCopyList = false ∧ cx.noCopyDict = false
+
 /-- What the theorems assume of the uninterpreted Python side when *serializing*. -/
 structure PrintLaws (O : Oracle) : Prop where
   /-- a leaf printer is total on objects of its kind and yields a basic scalar
